@@ -37,16 +37,21 @@ func ackQueueModel(terminal byte) porcupine.Model {
 			key := fmt.Sprintf("%d:", i.id)
 			switch i.op {
 			case 'r':
-				for _, e := range ents {
-					if strings.HasPrefix(e, key) {
-						return true, s
+				// the newest entry under the identifier decides: in flight = a repetition, finished = a new request
+				term := fmt.Sprintf(":%d", terminal)
+				for k := len(ents) - 1; k >= 0; k-- {
+					if strings.HasPrefix(ents[k], key) {
+						if !strings.HasSuffix(ents[k], term) {
+							return true, s
+						}
+						break
 					}
 				}
 				ents = append(ents, key+"0")
 				return true, strings.Join(ents, ",")
 			case 'a':
-				for k, e := range ents {
-					if strings.HasPrefix(e, key) {
+				for k := len(ents) - 1; k >= 0; k-- {
+					if strings.HasPrefix(ents[k], key) {
 						n := append([]string{}, ents...)
 						n[k] = fmt.Sprintf("%s%d", key, i.kind)
 						return true, strings.Join(n, ",")
